@@ -109,7 +109,7 @@ def run_case(case):
     obs = out['obs']
     with world.World(case) as w:
         pat = case['pattern']
-        if pat.startswith('@'):
+        if pat.startswith('@/'):
             pat = w.R + pat[1:]
         elif pat.startswith('/*'):
             pass
